@@ -168,7 +168,8 @@ def semantic_quantifiers(F, key, callee, lo, hi, env=None):
     sites = [bi for bi, t in body.calls() if t.get("callee") == callee]
 
     def line(b, bi):
-        return int(b.loc(bi).split(":")[-1])
+        # code of an inlined (new) helper counts at the line of the call it was inlined at
+        return b.blocks[bi].get("inl_line") or int(b.loc(bi).split(":")[-1])
 
     def reachable(bi):
         return explore(body, [(0, dict(env or {}))], want="target", targets=[bi]) is not None
